@@ -116,6 +116,28 @@ func ntsVerify(p []byte, key []byte) ([]ntsField, bool) {
 	return nil, false
 }
 
+// ntsOpenRaw returns the decrypted plaintext of an NTS packet's authenticator field.
+func ntsOpenRaw(p []byte, key []byte) ([]byte, bool) {
+	for _, f := range ntsWalk(p) {
+		if f.typ != 0x0404 || len(f.body) < 4 {
+			continue
+		}
+		nl := int(f.body[0])<<8 | int(f.body[1])
+		cl := int(f.body[2])<<8 | int(f.body[3])
+		npad := (nl + 3) &^ 3
+		if 4+npad+cl > len(f.body) || nl != 16 {
+			return nil, false
+		}
+		aead, err := miscreant.NewAEAD("AES-CMAC-SIV", key, 16)
+		if err != nil {
+			return nil, false
+		}
+		pt, err := aead.Open(nil, f.body[4:4+nl], f.body[4+npad:4+npad+cl], p[:f.off])
+		return pt, err == nil
+	}
+	return nil, false
+}
+
 func uidOf(p []byte) []byte {
 	for _, f := range ntsWalk(p) {
 		if f.typ == 0x0104 {
